@@ -36,6 +36,8 @@ type gen struct {
 	slot     int
 	longSlot int
 	longLen  int
+	long     *longFlags // non-nil: the KerberosFlags field of the case is not 32 bits long (flagbits_test.go)
+	bad      string     // non-empty: the case could not be built (oracle problem)
 }
 
 func newGen(name string, i, minSlots int) *gen {
